@@ -143,6 +143,31 @@ def run(ctx, rep):
         rep.ob("reloc-requests-symbol", "request-site", len(reqs) >= 1, f"{len(reqs)} send_symbol_request call(s) in process_relocation", pr.file, pr.line)
         rep.ob("reloc-requests-symbol", "on-no-resolution-edge", bool(reqs) and all(r in fb for r in reqs) and bool(fb),
                "the request is sent on the !previous_flags.has_resolution() edge (first reference to the symbol): a flipped polarity would never load referenced sections", pr.file, pr.line)
+        # every successful return on the "relocation has a symbol" edge has passed the flag update (the reachability edge is
+        # created for *every* relocation kind: a NONE relocation against a symbol is the standard way to keep a section alive)
+        import decide
+        updates = [bi for bi, t in flow.calls() if (callee_key(t["f"]) or "").endswith("::fetch_or")]
+        rep.ob("reloc-requests-symbol", "flag-update-site", len(updates) >= 1, f"{len(updates)} fetch_or call(s) on the symbol's flags", pr.file, pr.line)
+        n_ret = n_ok_total = 0
+        for bi, si, proj, payload in flow.defs.get(0, []):
+            if bi not in cfg.reach or si == "call":
+                continue
+            rv = payload
+            if not (rv["k"] == "agg" and rv.get("variant") == "Ok"):
+                continue
+            n_ok_total += 1
+            at = decide.atoms_at(P, F, pr, bi)
+            has_symbol = any(a.startswith("variant:Option") and "Some" in v for a, v in at if not isinstance(v, bool))
+            if not has_symbol:
+                continue
+            n_ret += 1
+            ok = any(cfg.dominates(u, bi) for u in updates)
+            guards = sorted((a.split("(")[0], v) for a, v in at if isinstance(v, bool))
+            rep.ob("reloc-requests-symbol", f"ok-return-after-update#{n_ret}", ok,
+                   ("this successful return lies after the symbol's flags were updated (and the symbol requested if new)" if ok else
+                    f"process_relocation can return Ok for a relocation that names a symbol without updating that symbol's flags or requesting it (guards: {guards[:4]}): "
+                    "the section the symbol lives in is then not reachable through this relocation and may be garbage-collected"), pr.file, rv.get("l") or pr.blocks[bi]["t"].get("l") or pr.line)
+        rep.ob("reloc-requests-symbol", "ok-returns-seen", n_ok_total >= 1, f"{n_ok_total} Ok return(s) in process_relocation, {n_ret} of them inside the has-symbol arm (each must follow the flag update)", pr.file, pr.line)
     # ---- prelude ------------------------------------------------------------------------------------------------
     pa = F.body("libwild::layout::PreludeLayoutState::activate")
     if pa is None:
